@@ -35,6 +35,13 @@ type Reader struct {
 	fileSize    int64
 	pageTree    *pages.PageTree // Cached page tree
 	loading     map[int]bool    // Objects whose lookup is in progress (cycle guard)
+
+	// How many objects were being loaded inside each other, at most, while a cached
+	// object (objNeed, the object itself included) or a cached object stream (stmNeed)
+	// was loaded: a cache hit stands for that many nested loads.
+	objNeed map[int]int
+	stmNeed map[int]int
+	reach   int // most objects being loaded at once since the load in progress began
 }
 
 // Ensure Reader implements pages.ObjectResolver
@@ -52,6 +59,8 @@ func NewReader(file *os.File) (*Reader, error) {
 		file:        file,
 		objCache:    make(map[int]core.Object),
 		objStmCache: make(map[int]*core.ObjectStream),
+		objNeed:     make(map[int]int),
+		stmNeed:     make(map[int]int),
 		fileSize:    fileInfo.Size(),
 	}
 
@@ -175,6 +184,9 @@ const maxNestedLoads = 16
 func (r *Reader) GetObject(objNum int) (core.Object, error) {
 	// Check cache first
 	if obj, ok := r.objCache[objNum]; ok {
+		if err := r.nestCached(r.objNeed[objNum]); err != nil {
+			return nil, fmt.Errorf("object %d: %w", objNum, err)
+		}
 		return obj, nil
 	}
 
@@ -207,7 +219,14 @@ func (r *Reader) GetObject(objNum int) (core.Object, error) {
 		r.loading = make(map[int]bool)
 	}
 	r.loading[objNum] = true
-	defer delete(r.loading, objNum)
+	outer := r.reach
+	r.reach = len(r.loading)
+	defer func() {
+		delete(r.loading, objNum)
+		if r.reach < outer {
+			r.reach = outer
+		}
+	}()
 
 	var obj core.Object
 	var err error
@@ -228,10 +247,29 @@ func (r *Reader) GetObject(objNum int) (core.Object, error) {
 		return nil, err
 	}
 
-	// Cache the object
+	// Cache the object, and how many nested loads it took (this one included)
 	r.objCache[objNum] = obj
+	r.objNeed[objNum] = r.reach - len(r.loading) + 1
 
 	return obj, nil
+}
+
+// nestCached accounts for a cache hit as for the load it stands for. The limit on
+// nested loads must not depend on what happens to be cached: with 17 objects each
+// loaded inside the one before (A1 in an object stream whose /Length is A2, A2 in
+// an object stream whose /Length is A3, ...) GetObject(1) is refused on a fresh
+// reader, but after GetObject(2) had cached the other 16 it was answered. A cached
+// object or object stream whose loading took need nested loads is therefore
+// refused wherever loading it again would be refused.
+func (r *Reader) nestCached(need int) error {
+	top := len(r.loading) + need
+	if top > maxNestedLoads {
+		return fmt.Errorf("more than %d objects being loaded inside each other", maxNestedLoads)
+	}
+	if top > r.reach {
+		r.reach = top
+	}
+	return nil
 }
 
 // getUncompressedObject reads an object directly from the file
@@ -295,6 +333,9 @@ func (r *Reader) getCompressedObject(objNum int, entry *core.XRefEntry) (core.Ob
 func (r *Reader) getObjectStream(objStmNum int) (*core.ObjectStream, error) {
 	// Check cache first
 	if objStm, ok := r.objStmCache[objStmNum]; ok {
+		if err := r.nestCached(r.stmNeed[objStmNum]); err != nil {
+			return nil, fmt.Errorf("object stream %d: %w", objStmNum, err)
+		}
 		return objStm, nil
 	}
 
@@ -308,8 +349,14 @@ func (r *Reader) getObjectStream(objStmNum int) (*core.ObjectStream, error) {
 		return nil, fmt.Errorf("object stream %d cannot be in another object stream", objStmNum)
 	}
 
-	// Load the stream object
+	// Load the stream object, noting how many nested loads that takes
+	outer := r.reach
+	r.reach = len(r.loading)
 	streamObj, err := r.getUncompressedObject(objStmNum, entry)
+	need := r.reach - len(r.loading)
+	if r.reach < outer {
+		r.reach = outer
+	}
 	if err != nil {
 		return nil, fmt.Errorf("failed to load object stream %d: %w", objStmNum, err)
 	}
@@ -327,6 +374,7 @@ func (r *Reader) getObjectStream(objStmNum int) (*core.ObjectStream, error) {
 
 	// Cache the object stream
 	r.objStmCache[objStmNum] = objStm
+	r.stmNeed[objStmNum] = need
 
 	return objStm, nil
 }
@@ -417,6 +465,8 @@ func (r *Reader) XRefTable() *core.XRefTable {
 func (r *Reader) ClearCache() {
 	r.objCache = make(map[int]core.Object)
 	r.objStmCache = make(map[int]*core.ObjectStream)
+	r.objNeed = make(map[int]int)
+	r.stmNeed = make(map[int]int)
 }
 
 // CacheSize returns the number of cached objects
